@@ -153,7 +153,7 @@ def mkModel (name : String) (tanhArg : α → α) : KModel α where
     | [x1, x2, x3, x4], [rain, pet], s :: r :: n1f :: n2f :: rest =>
       let n1 := (Num.toInt n1f).toNat
       let n2 := (Num.toInt n2f).toNat
-      if n1 = 0 ∨ n2 = 0 ∨ rest.length ≠ n1 + n2 then .error "arity"
+      if n1 = 0 ∨ n2 = 0 ∨ rest.length < n1 + n2 then .error "arity"
       else
         let res := run tanhArg x1 x2 x3 x4 ⟨s, r, rest.take n2, (rest.drop n2).take n1⟩ (rain.zip pet)
         .ok { outputs := [res.2.map (·.Q)], states := row res.1 }
